@@ -235,11 +235,6 @@ def run_check(modname: str, tier: str, seed: int, replay_path: str | None = None
     if not tlc_runs and not col.evaluations:
         print('MACHINERY FAILURE: nothing was evaluated', file=sys.stderr)
         return 2
-    for t in pm.required_tags(tier):
-        if col.tags.get(t, 0) == 0:
-            print(f'MACHINERY FAILURE: vacuous run, required tag {t!r} never occurred; tags seen: {dict(col.tags)}; skipped: {dict(col.skipped)}; evaluations: {col.evaluations}', file=sys.stderr)
-            return 2
-
     # ---- classify failures against the known-findings file
     known = open_signatures(prop)
     known_hits = collections.Counter()
@@ -276,6 +271,12 @@ def run_check(modname: str, tier: str, seed: int, replay_path: str | None = None
     if violations:
         print(f'{len(violations)} violating scenarios; by signature: {dict(sig_count)}')
 
+    vacuous = [t for t in pm.required_tags(tier) if col.tags.get(t, 0) == 0]
+    if vacuous and rc == 0:
+        print(f'MACHINERY FAILURE: vacuous run, required tags never occurred: {vacuous}; tags seen: {dict(col.tags)}; skipped: {dict(col.skipped)}; evaluations: {col.evaluations}', file=sys.stderr)
+        return 2
+    if vacuous:
+        print(f'note: required tags never occurred in this run: {vacuous} (violations are reported first)', file=sys.stderr)
     samples = []
     for p in first_payloads[:3]:
         try:
